@@ -310,3 +310,9 @@ INSTANCES.update({
     "scope_open": (seq(["root", "setlp", "lcstart", "lenter", "lexit", "collectopen", "pushc"], MaxOps=6, MaxSpans=1, MaxRoots=1, MaxLs=1, MaxLocal=3,
                        MaxScopes=1, MaxCycles=0, op_sleep_us=200), "terminal", {}),
 })
+
+# LocalSpans::to_span_records against what pushing the same set delivers (C17)
+INSTANCES.update({
+    "torec5": (seq(["root", "lcstart", "lenter", "lexit", "levent", "lprops", "lccollect", "collectopen", "torec", "pushc", "drop"], MaxOps=6, MaxSpans=1,
+                   MaxRoots=1, MaxAtt=2, MaxLs=1, MaxLocal=2, MaxScopes=1, MaxCycles=0, op_sleep_us=100), "terminal", {}),
+})
